@@ -419,6 +419,9 @@ Enabled(S, c) ==
   /\ c.op \in {"concatenate", "dot"} => (S[c.x].k = "A" /\ S[c.y].k = "A")
   /\ c.op \in GOps => IsArr(S, c.x)
   /\ c.op = "gin" => (IsArr(S, c.x) /\ (c.o = "" => S[c.x].k = "A"))
+  \* (a one-slot view of an INTEGER buffer is retyped to float like every integer out= object, after which the integer
+  \*  base reads garbage in that slot - the exemption for objects sharing memory with a retyped target; not offered)
+  /\ (c.op = "gin" /\ c.f \in GPartial) => ~IsInt(S[c.o].dt)
 
 (* ======================= property side (P) ======================= *)
 (* B, Af : projections of every slot before / after the call (R = the object that was R before the call);  *)
